@@ -139,6 +139,8 @@ def record_matches(model_rec, rec, ulps=4, rel=0.0):
     if not (isinstance(model_rec, list) and len(model_rec) == 3 and model_rec[0] == 'rec'):
         return False
     _, mres, merr = model_rec
+    if isinstance(mres, list) and mres and mres[0] == 'o':
+        return None          # the model has no opinion (unmodelled builtin / text of a float)
     if merr != 'none':
         return rec['result'] is None and ERR_TAGS.get(rec['error']) == merr
     if rec['error'] is not None:
